@@ -182,6 +182,45 @@ def check_case(ctx, cr, out_name, write_log, rng, tier, max_subsets):
                 bad = True
         if not bad:
             ctx.count("no-clobber-ok")
+    # bystanders: files a run of this kind *could* write but this one does not (reports of an earlier,
+    # different run).  They are no collision - the run succeeds - and must be left exactly as they were.
+    stem = Path(out_name).stem
+    root = re.sub(r"\.\d+$", "", stem)
+    ver = (re.search(r"\.(\d+)$", stem) or [None, "1"])[1]
+    ext = out_name.rsplit(".", 1)[1]
+    potential = [f"{stem}.chr_report.csv", f"{root}.{ver}.primary.chromosome.list.csv", f"{root}.{ver}.additional_haplotigs.curated.{ext}",
+                 f"{root}.{ver}.contaminants.{ext}", f"{root}.{ver}.falseduplicates.{ext}", f"{root}.hap2.{ver}.primary.chromosome.list.csv"]
+    bystanders = [n for n in potential if n not in files]
+    if bystanders:
+        for clob in ("--no-clobber", "--clobber"):
+            ctx.case()
+            cli_runs.clear_outputs(cr)
+            chosen = rng.sample(bystanders, rng.randint(1, len(bystanders)))
+            for n in chosen:
+                (cr["dir"] / n).write_bytes(SENTINEL + n.encode())
+            AUDIT["events"] = []
+            AUDIT["on"] = True
+            try:
+                res = cli_runs.run_pretext_to_asm(cr, out_name, [*extra, clob])
+            finally:
+                AUDIT["on"] = False
+            ctx.count("bystander-runs")
+            case = {**base_case, "bystanders": chosen, "clobber": clob}
+            ctx.nontrivial([base_case["files"], out_name, write_log, "bystanders", chosen, clob])
+            okb = True
+            for sig, msg in audit_problems([str(cr["dir"] / n) for n in chosen])[:2]:
+                ctx.violation(f"bystander:{sig}:{_kind(chosen, msg)}", f"{clob}: {msg}", case)
+                okb = False
+            for n in chosen:
+                pth = cr["dir"] / n
+                if not pth.exists() or pth.read_bytes() != SENTINEL + n.encode():
+                    ctx.violation(f"bystander:file-that-is-not-an-output-of-this-run-was-altered:{_ftype(n)}", f"{clob}: {n} {'removed' if not pth.exists() else 'changed'}", case)
+                    okb = False
+            if res["exit_code"] != 0:
+                ctx.violation("bystander:run-failed-although-nothing-collides", f"{clob}: exit {res['exit_code']} {res['stderr'][-200:]}", case)
+                okb = False
+            if okb:
+                ctx.count("bystander-ok")
     # --clobber leg: sentinels longer than the real output; everything completely rewritten
     for sub in (list(files), [files[rng.randrange(len(files))]]):
         ctx.case()
@@ -395,6 +434,7 @@ def gates(c, tier):
         "strace-ok": 4,
         "hostile-ok": 40,
         "hostile:race": 10,
+        "bystander-ok": 40,
         "no-clobber:empty-pre-existing-file": 50,
     }
     return [f"{k}>={v} (got {c.get(k, 0)})" for k, v in need.items() if c.get(k, 0) < v]
